@@ -13,7 +13,7 @@ from ..harness import Part, HarnessError
 PROPERTY_ID = "C15"
 RULE = ("recorded: Hypothesis build programs (<= 7 items per circuit, nesting <= 2, 4 qubits) over all 26 operation kinds "
         "(13 exported, 13 not), repetition counts 1..3 on sub-circuits, waits with integer durations, sibling sub-circuits "
-        "with identical content (same derived names). to_openql runs against a recording platform (test double for "
+        "with identical content (same derived names); in about half of the cases the unfinished circuit is also exported once before a generated top-level item is added (that export = translated listing of the prefix). to_openql runs against a recording platform (test double for "
         "PlatformManager.construct_program / construct_kernel that logs gate / cz / barrier / wait / add_kernel / "
         "add_program / add_for and, like OpenQL, rejects a duplicate kernel name inside one program); the executed "
         "instruction sequence (sub-programs expanded where they were added, loops expanded) must equal the operation "
@@ -190,7 +190,9 @@ def strat():
             import copy
             items.append(copy.deepcopy(items[subs[0]]))
         return program
-    return P.program_strategy(cfg()).map(integer_waits).map(twin)
+    # "early": export the unfinished circuit once before the top-level item of that number is added (None: single export)
+    return st.tuples(P.program_strategy(cfg()).map(integer_waits).map(twin), st.none() | st.integers(0, 6)).map(
+        lambda t: dict(t[0], early=t[1]))
 
 
 def first_diff(a, b):
@@ -223,14 +225,28 @@ def body_recorded(case, ctx):
     twins = len(program["top"]["items"]) >= 2 and any(
         P.is_sub(a) and a == b for i, a in enumerate(program["top"]["items"]) for b in program["top"]["items"][i + 1:])
     ctx.case(case, nontrivial=between, classes=[f"between={between}", f"nesting={st['nesting']}", f"reps={st['n_reps_gt1'] > 0}",
-                                                f"identical_subs={twins}"])
+                                                f"identical_subs={twins}",
+                                                f"early_export={program.get('early') is not None and program['early'] < len(program['top']['items'])}"])
     facts = {"nesting": st["nesting"], "reps": st["n_reps_gt1"] > 0, "identical_subs": twins}
+    early = program.get("early")
+    if early is not None and early >= len(program["top"]["items"]):
+        early = None
+    partial = []
+
+    def peek(decl, p, it):
+        if len(p) == 1 and p[0] == early:
+            with recording_platform():
+                partial.append((to_openql(decl).executed(), expected(decl.circuit_structure)))
+
     b = exp = None
     with ctx.lib("build"):
-        b = P.build(program)
+        b = P.build(program, peek=peek if early is not None else None)
         exp = expected(b.circuit.circuit_structure)
     if exp is None:
         return
+    for got0, exp0 in partial:
+        if got0 != exp0:
+            ctx.fail("openql-unfinished", f"export of the circuit before item {early} was added differs from its translated listing: {first_diff(exp0, got0)}", facts)
     got = names = None
     with recording_platform():
         with ctx.lib("to_openql"):
